@@ -15,7 +15,9 @@ def sh(cmd, **kw):
 def main():
     names = sys.argv[1:]
     files = sorted(glob.glob(os.path.join(VERIF, "mutants", "*.json")))
-    if names:
+    if names and names[0] == "--property":
+        files = [f for f in files if json.load(open(f))["property"] == names[1]]
+    elif names:
         files = [f for f in files if os.path.basename(f)[:-5] in names]
     sh("git -C /repo worktree add --detach %s HEAD" % WT)
     if os.path.exists("/repo/Cargo.lock"):
@@ -38,7 +40,7 @@ def main():
             if not applied:
                 print("SKIP   %-40s (no longer applies)" % name)
                 continue
-            r = sh("./vcheck %s" % m["property"], cwd=VERIF, env=dict(os.environ, UMYA_REPO=WT))
+            r = sh("./vcheck %s --tier quick" % m["property"], cwd=VERIF, env=dict(os.environ, UMYA_REPO=WT, VERIF_TIER="quick", UMYA_KEEP_EVIDENCE="1"))
             keys = re.findall(r"violated: (\S+)", r.stdout)
             if "fact extraction failed" in r.stdout or "error" in r.stdout and not keys and r.returncode not in (0, 1):
                 print("BROKEN %-40s (mutant does not compile?)\n%s" % (name, r.stdout[-600:]))
